@@ -62,8 +62,8 @@ CHECKS = {
    text="Histories of prior operations (construct / encode / encode twice / failing encode) over a pool of ~30 documents (incl. near twins: the same attribute values under other palettes / sizes), with and without sharing equal-valued component objects, are executed on the real library; the target's string must equal the string a fresh interpreter produces for the same spec, a second encode must equal the first, DataFrames must be unchanged and the colour context empty after every encode. All histories of length <=1 (quick) / <=2 (thorough) are enumerated, longer ones sampled. A second family of histories builds and encodes the target object with OTHER texts, then edits its text components in place (nested attribute assignment) to the pool values and encodes again - the result must again equal the fresh-interpreter string, so nothing may be memoised on the document or its components.",
    note="trusted: a fresh `python -c` interpreter as the reference; os.fork isolation of histories (watchdog -> inconclusive)"),
  "C15": dict(cat="exploration", ref="5/C15",
-   technique="runtime monitoring under a deterministic sys.monitoring baton scheduler: systematic enumeration of single-preemption thread schedules at library call boundaries, sampled deeper schedules",
-   text="Threads encode different coloured documents under a scheduler that preempts a thread at a chosen library function-call boundary and hands the baton to a chosen thread; every single-preemption schedule of the listed document pairs is executed (both directions), plus sampled schedules with 2-4 preemptions and 3 threads. Each thread's string must equal its solo string. Evidence reports schedules run, preemptions actually taken, distinct preemption sites and distinct interleavings of the colour-state operations observed. Two-preemption schedules are additionally enumerated on a grid (denser early in the encode, where the shared colour state is set up), and every pair is also started cold in fresh interpreters.",
+   technique="runtime monitoring under a deterministic sys.monitoring baton scheduler: systematic enumeration of single-preemption thread schedules at library call boundaries, sampled deeper schedules; free-running thread stress in fresh interpreters against solo baselines",
+   text="Threads encode different coloured documents under a scheduler that preempts a thread at a chosen library function-call boundary and hands the baton to a chosen thread; every single-preemption schedule of the listed document pairs is executed (both directions), plus sampled schedules with 2-4 preemptions and 3 threads. Each thread's string must equal its solo string. Evidence reports schedules run, preemptions actually taken, distinct preemption sites and distinct interleavings of the colour-state operations observed. Two-preemption schedules are additionally enumerated on a grid (denser early in the encode, where the shared colour state is set up), and every pair is also started cold in fresh interpreters. A free-running arm (unscheduled threads in fresh interpreters, 1 microsecond switch interval, results compared with solo baselines) covers thread switches between bytecodes, which the scheduler does not produce.",
    note="granularity: Python function entries inside src/rtflite; one preemption exhaustive, more sampled; CPython 3.12 sys.monitoring trusted"),
  "C16": dict(cat="exploration", ref="5/C16",
    technique="runtime monitoring: picture destinations of the parsed output compared with the generated image files",
